@@ -10,6 +10,7 @@ for every (language, file kind, factor) whether the bytes can depend on the fact
 says "cannot" is a disagreement; every differing file is at the same time a failing input of the property.
 """
 import json
+import os
 import pathlib
 import re
 
@@ -19,20 +20,23 @@ from .common import enc, dec
 
 LANGS = ["c", "cpp", "py", "html"]
 PROC_CLASSES = ["siblings", "psUniqueName", "psMemo", "psTemplateCache", "psModelCache", "psCompileFold", "psSharedMutable"]
-FACTOR_CLASSES = {"process": ["random", "platform"], "clock": ["time"], "hashseed": ["hashOrder"], "cwd": ["absPath"],
+FACTOR_CLASSES = {"process": ["random", "platform"], "input-mtime": ["time"], "clock": ["time"], "hashseed": ["hashOrder"], "cwd": ["absPath"],
                   "location": ["absPath"], "process-history": PROC_CLASSES}
 CFG = common.VERIF / "corpus" / "C07" / "config"
+TOOL = common.VERIF / "corpus" / "C10" / "tools" / "append_marker.py"
+PPRUN = ("pp-run-program", ["--pp-run-program", TOOL])
+COPIED = ("copied-builtin-templates", ["--templates", "@LOC/my_templates"])     # the usual starting point of customised templates
 OPTSETS = {
-    "c": [("default", []), ("cfg-option-lists", ["--configuration", CFG / "option_lists.yaml"]), ("cfg-option-types", ["--configuration", CFG / "option_types.yaml"]), ("cfg-option-scalars", ["--configuration", CFG / "option_scalars.yaml"]), ("asserts+pp", ["--enable-serialization-asserts", "--enable-override-variable-array-capacity",
+    "c": [("default", []), ("cfg-option-lists", ["--configuration", CFG / "option_lists.yaml"]), PPRUN, COPIED, ("cfg-option-types", ["--configuration", CFG / "option_types.yaml"]), ("cfg-option-scalars", ["--configuration", CFG / "option_scalars.yaml"]), ("asserts+pp", ["--enable-serialization-asserts", "--enable-override-variable-array-capacity",
                                           "--pp-max-emptylines", "2", "--pp-trim-trailing-whitespace"]),
           ("omit-support+be", ["--omit-serialization-support", "--target-endianness", "big"]),
           ("nofloat-c11", ["--omit-float-serialization-support", "--language-standard", "c11"])],
-    "cpp": [("default", []), ("cfg-option-lists", ["--configuration", CFG / "option_lists.yaml"]), ("cfg-option-types", ["--configuration", CFG / "option_types.yaml"]), ("cfg-option-scalars", ["--configuration", CFG / "option_scalars.yaml"]), ("c++17-pmr+asserts", ["--language-standard", "c++17-pmr", "--enable-serialization-asserts"]),
+    "cpp": [("default", []), ("cfg-option-lists", ["--configuration", CFG / "option_lists.yaml"]), PPRUN, COPIED, ("cfg-option-types", ["--configuration", CFG / "option_types.yaml"]), ("cfg-option-scalars", ["--configuration", CFG / "option_scalars.yaml"]), ("c++17-pmr+asserts", ["--language-standard", "c++17-pmr", "--enable-serialization-asserts"]),
             ("c++20+pp", ["--language-standard", "c++20", "--pp-max-emptylines", "1", "--pp-trim-trailing-whitespace"]),
             ("omit-support", ["--omit-serialization-support"])],
-    "py": [("default", []), ("cfg-option-lists", ["--configuration", CFG / "option_lists.yaml"]), ("cfg-option-types", ["--configuration", CFG / "option_types.yaml"]), ("pp", ["--pp-max-emptylines", "2", "--pp-trim-trailing-whitespace"]),
+    "py": [("default", []), ("cfg-option-lists", ["--configuration", CFG / "option_lists.yaml"]), PPRUN, COPIED, ("cfg-option-types", ["--configuration", CFG / "option_types.yaml"]), ("pp", ["--pp-max-emptylines", "2", "--pp-trim-trailing-whitespace"]),
            ("ext", ["--output-extension", ".pyx"])],
-    "html": [("default", []), ("cfg-option-lists", ["--configuration", CFG / "option_lists.yaml"]), ("cfg-option-types", ["--configuration", CFG / "option_types.yaml"]), ("pp", ["--pp-max-emptylines", "1", "--pp-trim-trailing-whitespace"]),
+    "html": [("default", []), ("cfg-option-lists", ["--configuration", CFG / "option_lists.yaml"]), PPRUN, COPIED, ("cfg-option-types", ["--configuration", CFG / "option_types.yaml"]), ("pp", ["--pp-max-emptylines", "1", "--pp-trim-trailing-whitespace"]),
              ("ext", ["--output-extension", ".htm"])],
 }
 B85_LINE = re.compile(r"^\s*'[0-9A-Za-z!#$%&()*+\-;<=>?@^_`{|}~]+'\)?\s*$")
@@ -258,6 +262,8 @@ def where_of_diff(lang, path_a, path_b):
         return "pickled-model-literal", d
     if ".dsdl" in a and ".dsdl" in b:
         return "dsdl-source-path", d
+    if "last modified" in a.lower() or "last modified" in b.lower():
+        return "definition-mtime-text", d
     if "Generated at" in a:
         return "generated-at-comment", d
     if a.lstrip().startswith("#include") or a.lstrip().startswith("import ") or a.lstrip().startswith("from "):
@@ -318,12 +324,13 @@ def run(ctx: common.Ctx):
 
     # ---- paired runs ----------------------------------------------------------------------------------------------------------------
     inputs = corpus_inputs(ctx) + generated_inputs(ctx, 1 if ctx.quick else 4)
-    nopt = 2 if ctx.quick else 5
+    nopt = 4 if ctx.quick else 7
     rnd_seed = str(ctx.rng.randint(2, 2 ** 31 - 1))
     scratch = ctx.scratch
     (scratch / "cwd1").mkdir(); (scratch / "cwd2" / "nested" / "dir").mkdir(parents=True)
     jobs, meta = [], {}
     T1, T2 = 981173106.0, 2208988800.0       # 2001-02-03, 2040-01-01
+    T_INPUT, T_INPUT2 = 1100000000.0, 1400000000.0   # 2004-11-09, 2014-05-13
     snaps = {iname: pr.snapshot_input(root, lookups) for iname, root, lookups in inputs}
     links = {}
     for ii, (iname, root, lookups) in enumerate(inputs):
@@ -337,12 +344,17 @@ def run(ctx: common.Ctx):
             pr.copy_tree(root, loc / root.name)
             for lk in lookups:
                 pr.copy_tree(lk, loc / lk.name)
+            for lang_ in LANGS:      # a private copy of the built-in templates next to the definitions (relative command line)
+                pr.copy_tree(common.REPO / "src" / "nunavut" / "lang" / lang_ / "templates", loc / "my_templates" / lang_)
+            for fpath in loc.rglob("*"):
+                if fpath.is_file():
+                    os.utime(fpath, (T_INPUT, T_INPUT))      # copies carry a fixed, old modification time
         # the same inputs reached through a symbolic link (another spelling of the location, same files)
         (scratch / "links").mkdir(exist_ok=True)
         links[ii] = scratch / "links" / f"to_in{ii}"
         links[ii].symlink_to(locA, target_is_directory=True)
         for lang in LANGS:
-            for oname, extra in OPTSETS[lang][:nopt]:
+            for oname, extra in (OPTSETS[lang][:nopt] if (ii == 0 or not ctx.quick) else OPTSETS[lang][:1]):
                 cfg = f"{ii}|{lang}|{oname}"
 
                 def add(variant, factor, loc, cwd, hs, ft, step=0.0, cfg=cfg, lang=lang, extra=extra, root=root, lookups=lookups):
@@ -350,7 +362,7 @@ def run(ctx: common.Ctx):
                     argv = ["--experimental-languages", "-l", lang, "-O", out, loc / root.name]
                     for lk in lookups:
                         argv += ["-I", loc / lk.name]
-                    argv += list(extra)
+                    argv += [str(x).replace("@LOC/my_templates", str(loc / "my_templates" / lang)) for x in extra]
                     name = f"j{len(jobs)}"
                     jobs.append({"name": name, "runs": [pr.make_run(argv, out, cwd)], "hashseed": hs, "fake_time": ft, "fake_step": step})
                     meta[name] = {"cfg": cfg, "variant": variant, "factor": factor, "out": out, "lang": lang, "extra": list(extra),
@@ -358,14 +370,21 @@ def run(ctx: common.Ctx):
 
                 add("base", None, locA, scratch / "cwd1", "0", T1)
                 add("process", "process", locA, scratch / "cwd1", "0", T1)
+                if oname == "pp-run-program":
+                    for rep in (2, 3, 4):     # files may be rendered concurrently: repeat the identical run
+                        add(f"process{rep}", "process", locA, scratch / "cwd1", "0", T1)
                 add("clock", "clock", locA, scratch / "cwd1", "0", T2)
-                add("clock-ticking", "clock", locA, scratch / "cwd1", "0", T2, 1.0)
+                lean_cfg = ctx.quick and (ii != 0 or oname not in ("default", "pp-run-program"))   # quick: the full variant set only where it pays
+                if not lean_cfg:
+                    add("clock-ticking", "clock", locA, scratch / "cwd1", "0", T2, 1.0)
                 add("hash1", "hashseed", locA, scratch / "cwd1", "1", T1)
-                add("hashR", "hashseed", locA, scratch / "cwd1", rnd_seed, T1)
-                add("cwd", "cwd", locA, scratch / "cwd2" / "nested" / "dir", "0", T1)
+                if not lean_cfg:
+                    add("hashR", "hashseed", locA, scratch / "cwd1", rnd_seed, T1)
+                    add("cwd", "cwd", locA, scratch / "cwd2" / "nested" / "dir", "0", T1)
                 add("location", "location", locB, scratch / "cwd1", "0", T1)
                 add("location-rootname-ancestor", "location", locC, scratch / "cwd1", "0", T1)
-                add("location-symlink", "location", links[ii], scratch / "cwd1", "0", T1)
+                if not lean_cfg:
+                    add("location-symlink", "location", links[ii], scratch / "cwd1", "0", T1)
                 # the same run when it is NOT the first generation in its interpreter (another namespace was generated before it)
                 wi = (ii + 1) % len(inputs)
                 warm = inputs[wi]
@@ -377,6 +396,23 @@ def run(ctx: common.Ctx):
                     add("all", "all", locB, scratch / "cwd2" / "nested" / "dir", rnd_seed, T2, 1.0)
     ctx.extra["paired_jobs"] = len(jobs)
     results = pr.exec_jobs(common.REPO / "src", scratch, jobs, max_workers=14)
+    # stage 2: the same files at the same location with OTHER modification times (a byte-identical copy / checkout made another day)
+    for ii in range(len(inputs)):
+        for fpath in (scratch / "locA" / f"in{ii}").rglob("*.dsdl"):
+            os.utime(fpath, (T_INPUT2, T_INPUT2))
+        for fpath in (scratch / "locA" / f"in{ii}" / "my_templates").rglob("*"):
+            if fpath.is_file():
+                os.utime(fpath, (T_INPUT2, T_INPUT2))
+    stage2 = []
+    for name, m in list(meta.items()):
+        if m["variant"] == "process" and m["opt"] in ("default", "copied-builtin-templates"):
+            j = [x for x in jobs if x["name"] == name][0]
+            out2 = pathlib.Path(str(m["out"]).replace("_process", "_input_mtime"))
+            runs2 = [dict(r, argv=[a.replace(str(m["out"]), str(out2)) for a in r["argv"]], out=str(out2)) for r in j["runs"]]
+            n2 = f"j{len(jobs) + len(stage2)}"
+            stage2.append({"name": n2, "runs": runs2, "hashseed": "0", "fake_time": T1, "fake_step": 0.0})
+            meta[n2] = dict(m, variant="input-mtime", factor="input-mtime", out=out2)
+    results.update(pr.exec_jobs(common.REPO / "src", scratch, stage2, max_workers=14))
 
     bases = {m["cfg"]: n for n, m in meta.items() if m["variant"] == "base"}
     seen_fail = set()
